@@ -427,8 +427,35 @@ def replay_content_only(s, w):
             return
 
 
+def repeated_carried(s):
+    """Messages that carry one ID twice (stories of a roReplace / append / insert / replace, items of an
+    item insert / replace): read, merged, merged again - the object stays what was sent."""
+    new = lambda i, n=1: gen.simple_story(i, n)
+    idx = 0
+    for layout in ('none', 'between'):
+        ro_txt = gen.grid_ro(['A', 'B', 'C'], layout, pretty=False)
+        rr = lambda names: gen.grid_ro(names, 'none').replace('roCreate', 'roReplace').replace(
+            '<messageID>1</messageID>', '<messageID>50</messageID>')
+        cases = [('roReplace', rr(['X', 'Y', 'X'])), ('roReplace', rr(['X', 'X'])), ('roReplace', rr(['A', 'X', 'A', 'X'])),
+                 ('roStoryAppend', B.msg_doc('roStoryAppend', 50, carried=[new('N1'), new('N1')])),
+                 ('roStoryAppend', B.msg_doc('roStoryAppend', 50, carried=[new('B'), new('N1'), new('B')])),
+                 ('roStoryInsert', B.msg_doc('roStoryInsert', 50, target='B', carried=[new('N1'), new('N2'), new('N1')])),
+                 ('EAStoryInsert', B.msg_doc('EAStoryInsert', 50, target='B', carried=[new('N1'), new('N1')])),
+                 ('roStoryReplace', B.msg_doc('roStoryReplace', 50, target='A', carried=[new('A'), new('A')])),
+                 ('EAStoryReplace', B.msg_doc('EAStoryReplace', 50, target='A', carried=[new('N1'), new('N2'), new('N1')])),
+                 ('roItemInsert', B.msg_doc('roItemInsert', 50, story_ref='A', target=B.BLANK, carried=[B.item('n', 'x'), B.item('n', 'y')])),
+                 ('roItemReplace', B.msg_doc('roItemReplace', 50, story_ref='A', target='A.0', carried=[B.item('n', 'x'), B.item('n', 'y')])),
+                 ('EAItemInsert', B.msg_doc('EAItemInsert', 50, story_ref='A', target='A.0', carried=[B.item('A.0', 'x'), B.item('A.0', 'y')]))]
+        for kind, msg_txt in cases:
+            idx += 1
+            if s.mine(idx):
+                judge_reuse(s, ro_txt, msg_txt, kind, 'repeated-%d' % idx)
+                s.hist['repeated_carried_cases'] += 1
+
+
 def run(s):
     q = s.tier == 'quick'
+    repeated_carried(s)
     for c in range(60 if q else 4000):
         if s.mine(c):
             content_only(s, c)
